@@ -429,7 +429,29 @@ class Alg:
             return True
         if self.single() and o.single() and self.terms and o.terms:
             return self.square().eq(o.square())     # positive values: compare squares
-        return False
+        # residual terms c*sqrt(r) of definite sign: +|c|sqrt(r) and -|c'|sqrt(r') cancel when c^2 r == c'^2 r'  (symbols are positive reals, so
+        # sqrt(4 x^2) is 2 x although the two are kept under different radicands)
+        pos, neg = [], []
+        for c, r in d.terms:
+            try:
+                if c.sign_definite_nonneg():
+                    pos.append(c * c * r)
+                elif (Rat.const(0) - c).sign_definite_nonneg():
+                    neg.append(c * c * r)
+                else:
+                    return False
+            except Exception:
+                return False
+        if len(pos) != len(neg):
+            return False
+        for p_ in pos:
+            for i, n_ in enumerate(neg):
+                if p_.eq(n_):
+                    del neg[i]
+                    break
+            else:
+                return False
+        return True
 
     def rat(self):
         if not self.is_rat():
